@@ -86,6 +86,7 @@ func cmdDev(args []string) int {
 	verbose := fs.Bool("v", false, "verbose")
 	keep := fs.String("keep", "", "directory to keep SMT files")
 	fast := fs.Bool("fast", false, "main query only (development)")
+	unroll := fs.Int("unroll", 0, "bounded mode: unroll loops this many times and ignore loop clauses")
 	fs.Parse(args)
 	p, err := loadProgram(*repo)
 	if err != nil {
@@ -97,7 +98,7 @@ func cmdDev(args []string) int {
 	if *opat != "" {
 		ore = regexp.MustCompile(*opat)
 	}
-	cfg := Config{TimeoutS: *timeout, Jobs: *jobs, Verbose: *verbose, KeepSMT: *keep, Fast: *fast}
+	cfg := Config{TimeoutS: *timeout, Jobs: *jobs, Verbose: *verbose, KeepSMT: *keep, Fast: *fast, Unroll: *unroll}
 	bad := 0
 	for _, key := range p.Order {
 		c := p.Contracts[key]
